@@ -16,33 +16,32 @@ def load_contracts():
 
 
 def main(argv):
+    from . import par
     load_contracts()
-    keys = [k for k in dsl.CONTRACTS if not argv or any(a in k for a in argv)]
-    lemmas = [l for l in dsl.LEMMAS if not argv or any(a in l for a in argv)]
-    ctx = Ctx()
+    keys = [k for k in dsl.CONTRACTS if (not argv or any(a in k for a in argv)) and not dsl.CONTRACTS[k].trusted]
+    lemmas = [l for l in dsl.LEMMAS if (not argv or any(a in l for a in argv)) and not dsl.LEMMAS[l].trusted]
     t0 = time.time()
-    for k in keys:
-        if dsl.CONTRACTS[k].trusted:
-            continue
-        info = verify.verify_function(ctx, k)
-        print("%-60s %s cases=%d paths=%d %s" % (k, info["status"], info["cases"], info["paths"], info["detail"]))
+    infos, obls, agg = par.symexec(keys, lemmas)
+    for info in infos:
+        print("%-60s %s cases=%d paths=%d %s" % (info["key"], info["status"], info["cases"], info["paths"], info["detail"]))
         if info["status"] != "ok" and "-v" in sys.argv:
             print(info.get("trace", ""))
-    for l in lemmas:
-        info = verify.verify_lemma(ctx, l)
-        print("%-60s %s %s" % ("lemma::" + l, info["status"], info["detail"]))
     t1 = time.time()
-    res = solve.discharge(ctx, ctx.obls, timeout_ms=10000)
+    res = par.discharge(obls, timeout_ms=10000)
     bad = 0
-    for ob, r in zip(ctx.obls, res):
+    for ob, r in zip(obls, res):
         if not r["ok"] or "-a" in sys.argv:
             print("  %-100s %-8s %-8s %.2fs %s" % (ob.name[-100:], r["verdict"], r["backend"], r["seconds"], r.get("reason") or ""))
         bad += 0 if r["ok"] else 1
     print("obligations=%d failed=%d symexec=%.1fs solve=%.1fs" % (len(res), bad, t1 - t0, time.time() - t1))
     if "-m" in sys.argv:
-        for ob, r in zip(ctx.obls, res):
+        for ob, r in zip(obls, res):
             if not r["ok"] and r.get("model"):
                 print(ob.name); print(r["model"][:3000]); break
+    if "-s" in sys.argv:
+        for ob, r in zip(obls, res):
+            if not r["ok"]:
+                open("/tmp/failed.smt2", "w").write(ob.smt2); print("wrote /tmp/failed.smt2 for", ob.name); break
 
 
 if __name__ == "__main__":
